@@ -77,3 +77,44 @@ def replay_refuse(case):
     except Exception as e:
         return True, 'raised %s' % type(e).__name__, 'C18/refuse'
     return raised != (not case.startswith('ok')), 'case %s %s' % (case, 'refused' if raised else 'accepted'), 'C18/refuse'
+
+
+def replay_ascii(expanded, blocked, where):
+    from cardutil import mciipm
+    from . import packaged
+    table = 'IP0075T1'
+    layout = packaged.param_tables()[table]
+    width = max(p['end'] for p in layout.values()) - 8
+    off = 0 if expanded else -8
+    rows = []
+    for i, t in enumerate([table, 'IPOTHER1', table]):
+        ts = '%07d' % (2100000 + i) if not expanded else '%010d' % (2100000000 + i)
+        key = ts + 'A' + (t if expanded else SUBID[t])
+        body = ''.join(chr(65 + (j + 3 * i) % 26) for j in range(width + 8 - len(key) + (0 if not expanded else 8)))
+        row = (key + body).encode('ascii')
+        if t != table and where == 'foreign-row':
+            row = row[:30] + b'caf\xe9 \xfc\xdf' + row[37:]
+        if t == table and where == 'filler-behind-columns':
+            row = row + b' \xe9\xe9 filler'
+        rows.append((row, ts, t))
+    f = io.BytesIO()
+    w = mciipm.VbsWriter(f, blocked=blocked)
+    for t in SUBID:
+        w.write(_index_row(t).encode('ascii'))
+    w.write(TRAILER.encode('ascii'))
+    for r in rows:
+        w.write(r[0])
+    w.close()
+    f.seek(0)
+    try:
+        got = list(mciipm.IpmParamReader(f, table, encoding='ascii', expanded=expanded, blocked=blocked))
+    except Exception as e:
+        return True, 'raised %s: %s' % (type(e).__name__, str(e)[:80]), 'C18/exception'
+    want = [r for r in rows if r[2] == table]
+    if len(got) != len(want):
+        return True, 'returned %d rows, the table has %d' % (len(got), len(want)), 'C18/rows'
+    for d, (row, ts, t) in zip(got, want):
+        for col, pos in layout.items():
+            if d.get(col) != row[pos['start'] + off:pos['end'] + off].decode('ascii'):
+                return True, 'column %s wrong' % col, 'C18/column'
+    return False, 'ok', None
